@@ -110,6 +110,9 @@ Do(o) ==
       [] o.op = "SetCursorStyle" -> ModeCall(o, [req EXCEPT !.shape = o.n], reg)
       [] o.op = "ShowCursor"    -> ModeCall(o, [req EXCEPT !.cur = TRUE], reg)
       [] o.op = "HideCursor"    -> ModeCall(o, [req EXCEPT !.cur = FALSE], reg)
+      \* the title is remembered and, on a running screen, sent at once; engage sends it again
+      [] o.op = "SetTitle" ->
+           ModeCall(o, [req EXCEPT !.title = "t"], IF HasTitle THEN [reg EXCEPT !.title = "t"] ELSE reg)
       [] o.op = "Show" ->
            /\ phase # "fin" /\ last' = "Show" /\ UNCHANGED <<phase, req>>
            /\ IF phase = "run" THEN reg' = Draw(reg, req) /\ sent' = (IF req.cur /\ HasShapes THEN req.shape ELSE sent)
@@ -127,13 +130,14 @@ Do(o) ==
 
 Ops == {Op("EnableMouse", f) : f \in MouseSets \ {0}} \cup {Op("DisableMouse", 0), Op("EnablePaste", 0), Op("DisablePaste", 0),
         Op("EnableFocus", 0), Op("DisableFocus", 0), Op("ShowCursor", 0), Op("HideCursor", 0), Op("Show", 0),
-        Op("Suspend", 0), Op("Resume", 0), Op("Fini", 0)}
+        Op("Suspend", 0), Op("Resume", 0), Op("Fini", 0), Op("SetTitle", 0)}
        \cup {Op("SetCursorStyle", n) : n \in {0, 2}}
 
 \* operation records in the shape the harness replays
 Out(o) == CASE o.op = "SetCursorStyle" -> [op |-> "SetCursorStyle", n |-> o.n, b |-> TRUE]
             [] o.op = "ShowCursor" -> [op |-> "ShowCursor", x |-> 1, y |-> 0]
             [] o.op = "EnableMouse" -> [op |-> "EnableMouse", n |-> o.n]
+            [] o.op = "SetTitle" -> [op |-> "SetTitle", s |-> "t1"]
             [] OTHER -> [op |-> o.op]
 \* a draw paints one styled cell first, so that a rendition is left on the terminal
 Expand(h) == LET f[k \in 0..Len(h)] == IF k = 0 THEN <<>>
@@ -155,7 +159,11 @@ View == <<phase, req, sent, reg, last, Len(hist)>>
 \* ---- properties ----------------------------------------------------------
 TypeOK == /\ phase \in {"run", "susp", "fin"} /\ req.mouse \in MouseSets /\ sent \in {0, 2} /\ reg.shape \in {0, 2}
 
-RestoredOnLeave == (last \in {"Suspend", "Fini"}) => reg = Pristine
+\* the title the application set is taken back where the terminal's own was saved on entry (alternate screen in use
+\* and a title stack to save it on); elsewhere there is nothing to restore it from
+RestoredOnLeave == (last \in {"Suspend", "Fini"}) =>
+                       /\ [reg EXCEPT !.title = ""] = Pristine
+                       /\ (AltScreen /\ HasTitle => reg.title = "")
 
 Applied == /\ reg.mouse = (IF HasMouse THEN MouseModes(req.mouse) ELSE {})
            /\ reg.paste = (HasMouse /\ req.paste)
